@@ -564,10 +564,13 @@ func (b *RefinementBuilder) NewValue() (ret Value) {
 					case ty.IsMapType():
 						return MapValEmpty(ty.ElementType())
 					}
-				} else if ty.IsListType() {
+				} else if ty.IsListType() && knownLen <= 1024 {
 					// If we know the length of the list then we can
 					// create a known list with unknown elements instead
-					// of a wholly-unknown list.
+					// of a wholly-unknown list. (Only for lengths that are
+					// reasonable to materialize: a refinement is free to
+					// state any length up to math.MaxInt, and a longer list
+					// stays a refined unknown value.)
 					elems := make([]Value, knownLen)
 					unk := UnknownVal(ty.ElementType())
 					for i := range elems {
